@@ -126,6 +126,17 @@ def g(F, X):
     if cap is not None and not re.search(r"bounded\s*\(\s*CHANNEL_CDP_BATCH_CAPACITY\s*\)", rd):
         cap = None
     F.add("proto_dcap", "N", cap, 100, "alice_protocol_reader lib.rs: crossbeam_channel::bounded(CHANNEL_CDP_BATCH_CAPACITY)")
+    # the key the dispatcher routes by is chosen from the check target alone (FEE id exactly for `check all its-stave`): no filter or
+    # other option takes part in the decision
+    nb = X.fn_body(vd, "new")
+    v = None
+    if nb:
+        m = re.search(r"let\s+dispatch_by\s*=\s*if\b(.*?)\{\s*DispatchId::FeeId", nb, flags=re.S)
+        if m:
+            cond = m.group(1)
+            v = ("filter" not in cond) and ("ITS_Stave" in cond) and ("CheckCommands::All" in cond) and (cond.count("&&") == 0) and (cond.count("||") == 0) \
+                and bool(re.match(r"\s*global_config\s*\.\s*check\s*\(\s*\)\s*\.\s*is_some_and", cond))
+    F.add("dispatch_key_from_check_target_only", "bool", v, True, "validator_dispatcher.rs new: dispatch_by is FeeId iff check() is All with target ITS_Stave, nothing else in the condition")
     F.add("proto_vcap_min", "N", X.const_in(vd, "INITIAL_CHAN_CAP"), 128, "validator_dispatcher.rs init_validator: INITIAL_CHAN_CAP (capacities only grow from it)")
 
     # 10. loops that end only when their channel is disconnected; the controller gives up its own sender first
